@@ -214,7 +214,13 @@ func typeInv(t types.Type, L []string, wm string) string {
 			} else {
 				cs = append(cs, le("0", x), lt(x, bigLit(two64)))
 			}
-		case lkPtr, lkIval:
+		case lkPtr:
+			cs = append(cs, le("0", x), lt(x, wm))
+			if pt, ok := l.Cell.Underlying().(*types.Pointer); ok {
+				// the whole pointee lies below the watermark
+				cs = append(cs, or(eq(x, "0"), le(add(x, intLit(int64(allocSlots(pt.Elem())))), wm)))
+			}
+		case lkIval:
 			cs = append(cs, le("0", x), lt(x, wm))
 		case lkTag, lkFn, lkMap:
 			cs = append(cs, le("0", x))
